@@ -215,11 +215,12 @@ GROUPS = {
         "pkg": "bladeink", "inject": "runtime/src/json/json_write.rs", "modpath": "json::json_write", "files": ["json_dict.rs"],
         "requires": ["pub(crate) fn write_int_dictionary(map: &HashMap<String, i32>) -> serde_json::Value"],
         "model_map": True, "panic_property": "C02",
-        "functions": ["json_write::write_int_dictionary", "json_write::write_ink_list"], "stubs": ["serde_json::Map::insert"],
+        "functions": ["json_write::write_int_dictionary", "json_write::write_ink_list", "json_write::write_choice", "Choice::new_from_json"], "stubs": ["serde_json::Map::insert"],
         "bounds": "dictionaries of one and two entries with symbolic i32 values (all values, including 0 and -1); key strings concrete",
         "roles": {"int_dict_two_entries": "visitCounts/turnIndices writer on {a: x, b: y}, all i32 x, y",
                   "int_dict_one_entry": "visitCounts/turnIndices writer on {k: x}, all i32 x",
-                  "ink_list_write_two_items": "list value writer on (A.x = x, B.x = y), all i32 x, y"},
+                  "ink_list_write_two_items": "list value writer on (A.x = x, B.x = y), all i32 x, y",
+                  "choice_write_indices": "pending-choice writer, index and originalThreadIndex symbolic (all usize), text/paths concrete"},
     },
 }
 
